@@ -20,7 +20,8 @@
 //           shuffle / rotation proofs driven directly, n <= nmax, every pi / r).  qcard: qmask (TMCG_Prove/VerifyMaskCard,
 //           k*w cut-and-choose sub-proofs), qdec (TMCG_Prove/VerifyCardSecret with another key / another card).
 //   parity  quadratic-residue encoding, witness that FITS the computation but changes the type (odd parity of the
-//           masking bits over the players): the statement is false and must be rejected as well.
+//           masking bits over the players in one type-bit column; with 4 type bits: every non-empty subset of columns,
+//           i.e. 1, 2, 3 or 4 type bits of one card flipped): the statement is false and must be rejected as well.
 // Edits of the output stack (every position i): sub:i:j (output i := re-masked copy of input j != pi(i)), fresh:i:t
 //   (fresh card of every other type), dup:i:j (literal copy of output j), dropdup:i:j (output i dropped, re-masked
 //   copy of output j appended), retype:i:d (c_2 * g^d, d = 1..3 | QR: flip:i:k:w = z[k][w] * y_k), c1g:i, neg1:i /
@@ -1094,6 +1095,67 @@ static void fam_parity(QCtx &C, const std::string &keytag)
 	}
 }
 
+// Same with FOUR type bits: secrets that flip every non-empty subset of the type bits of one card (1, 2, 3 or 4 bits;
+// flipped at player 0, or alternating between the players), so that a verifier which only tests the parity of ALL
+// mask bits of a card is caught as well.
+static void fam_parity4(uint64_t keysize, const std::string &keytag)
+{
+	const size_t K4 = 2, W4 = 4;
+	QWorld QW(SEED, K4, W4, keysize);
+	SchindelhauerTMCG tP(KAPPA, K4, W4), tV(KAPPA, K4, W4), tB(KAPPA, K4, W4);
+	for (int rot = 0; rot < 2; rot++)
+	for (size_t n = 2; n <= 3; n++)
+	{
+		std::vector<std::vector<size_t> > perms = all_perms(n);
+		for (size_t pidx = 0; pidx < perms.size(); pidx++)
+		{
+			const std::vector<size_t> &pi = perms[pidx];
+			if (rot && !is_cyclic(pi)) continue;
+			if (n == 3 && pidx != 3 && pidx != 1) continue;   // n = 3: one rotation (1 2 0) and one transposition (0 2 1)
+			std::string cid = "parity:stack4:" + keytag + ":" + (rot ? "cyclic" : "perm") + ":n" + str(n) + ":p" + perm_str(pi);
+			if (!R->mine() || !R->selected(cid)) continue;
+			if (R->out_of_time()) return;
+			at(cid);
+			UseCoins u(SEED ^ fnv(cid), 34);
+			uint64_t rs = SEED ^ fnv(cid);
+			const size_t types[3] = { 5, 10, 12 };
+			for (size_t i = 0; i < n; i++)
+				for (unsigned subset = 1; subset < 16; subset++)
+					for (int pattern = 0; pattern < 2; pattern++)
+					{
+						QStack s, s2;
+						QSecret ss;
+						for (size_t j = 0; j < n; j++)
+						{
+							TMCG_Card c(K4, W4); TMCG_CardSecret cs(K4, W4);
+							tB.TMCG_CreatePrivateCard(c, cs, QW.ring, 0, types[j]);
+							s.push(c);
+						}
+						tB.TMCG_CreateStackSecret(ss, pi, QW.ring, 0, n);
+						unsigned nflip = 0;
+						for (size_t w = 0; w < W4; w++)
+						{
+							if (!((subset >> w) & 1)) continue;
+							size_t k = pattern ? (nflip % K4) : 0;
+							mpz_set_ui(&ss[i].second.b[k][w], (mpz_get_ui(&ss[i].second.b[k][w]) & 1) ^ 1);
+							nflip++;
+						}
+						tB.TMCG_MixStack(s, s2, ss, QW.ring);
+						std::vector<size_t> ta, tb;
+						if (!QW.types_of(s, ta) || !QW.types_of(s2, tb)) harness_error("parity4: cards not in Z°");
+						bool truth = rot ? QW.is_rotation(s, s2) : QW.is_shuffle(s, s2);
+						if (truth) { R->ok(false); R->counters["skipped_true_statement"]++; continue; }
+						std::string name = "odd4:" + str(i) + ":s" + str(subset) + ":" + (pattern ? "alt" : "p0") + " (" + str(nflip) + " type bits of input card " + str(i) + " flipped)";
+						RunRes r = run_inter([&](std::iostream &io) { tP.TMCG_ProveStackEquality(s, s2, ss, rot != 0, QW.ring, 0, io, io); return true; },
+							[&](std::iostream &io) { return tV.TMCG_VerifyStackEquality(s, s2, rot != 0, QW.ring, io, io); }, rs ^ fnv(name));
+						R->counters["runs"]++;
+						judge_cutchoose("qr/mask-parity-unchecked/stackequality", cid, name + " (type-changing stack secret used as witness)", r);
+						if (subset == 3 && i == 0 && !pattern) R->sample(cid, name + ": " + describe(r));
+					}
+		}
+	}
+}
+
 int main(int argc, char **argv)
 {
 	Args A = parse(argc, argv);
@@ -1141,7 +1203,7 @@ int main(int argc, char **argv)
 			std::string tag = "m" + str(keysizes[ki]);
 			if (family == "all" || family == "qstack") fam_qstack(QC, tag);
 			if (qcard) fam_qmask(QC, tag), fam_qdec(QC, tag);
-			if (family == "all" || family == "parity") fam_parity(QC, tag);
+			if (family == "all" || family == "parity") fam_parity(QC, tag), fam_parity4(keysizes[ki], tag);
 		}
 	rep.finish();
 	return 0;
